@@ -30,7 +30,7 @@ func init() { core.Register(c19{}) }
 
 func (c19) ID() string { return "C19" }
 func (c19) Rule() string {
-	return "plans: <= 12 signature pushes over <= 3 subject artifacts (distinct envelopes, both media types, 100 B - 2 MiB, annotations), interleaved with foreign referrers (other artifact types, legacy artifact manifests of notation and of other types, subjects differing in exactly one field), hand-built hostile notation referrers (0 or 2 layers, declared blob size above the cap, 5 MiB manifest), failures injected into the two-step push (blob ok, manifest fails; config push fails), fetch failures, re-opening of the on-disk layout, listing order rotations; stores: oras oci.Store on tmpfs or memory.Store behind the order-fixing, fault-injecting wrapper. One plan in ten is the concurrent variant: 2-4 clients, each with its own repository client over one shared registry, push distinct signatures for the same and for different subjects under tape-driven interleaving of their registry calls. non-trivial: a listing took place with at least two referrers of any kind on some subject, or after a failed push / re-open; distinct: hash of (operations, faults, listing results)"
+	return "plans: <= 12 signature pushes over <= 3 subject artifacts (distinct envelopes, both media types, 100 B - 2 MiB, annotations), interleaved with foreign referrers (other artifact types, legacy artifact manifests of notation and of other types, subjects differing in exactly one field), hand-built hostile notation referrers (0 or 2 layers, declared blob size above the cap, 5 MiB manifest), failures injected into the two-step push (blob ok, manifest fails; config push fails), fetch failures, re-opening of the on-disk layout, listing order rotations, the subject presented in the forms callers hold it (plain / index-entry annotations / empty map / artifact type); stores: oras oci.Store on tmpfs or memory.Store behind the order-fixing, fault-injecting wrapper. One plan in ten is the concurrent variant: 2-4 clients, each with its own repository client over one shared registry, push distinct signatures for the same and for different subjects under tape-driven interleaving of their registry calls. non-trivial: a listing took place with at least two referrers of any kind on some subject, or after a failed push / re-open; distinct: hash of (operations, faults, listing results)"
 }
 func (c19) Components() map[string]string {
 	return map[string]string{
@@ -50,6 +50,7 @@ func (c19) Gen(r *rand.Rand, tier string, idx int) *core.Plan {
 		return p
 	}
 	p.World["disk"] = int64(r.IntN(2))
+	p.World["subjectForms"] = int64(idx % 2)
 	p.World["remote"] = int64(r.IntN(3) / 2) // a third of the runs present the store as a remote registry (two endpoints, paged referrers API)
 	p.World["page"] = int64(r.IntN(4))
 	if r.IntN(3) == 0 {
@@ -138,6 +139,25 @@ func (l c19) Exec(env *core.Env) *core.Result {
 		inner.Tag(ctx, d, fmt.Sprintf("v%d", i))
 		subjects = append(subjects, d)
 	}
+	// the same artifact as callers hold it: resolved by digest (the plain descriptor), resolved by tag from an OCI
+	// layout (the annotations and artifact type of its index entry travel with it), or after a JSON round trip (an
+	// empty map for none). Media type, digest and size say which artifact it is; the rest does not
+	subjectAs := func(s int, k int) ocispec.Descriptor {
+		d := subjects[s]
+		if p.W("subjectForms") == 0 {
+			return d
+		}
+		switch k % 4 {
+		case 1:
+			d.Annotations = map[string]string{"org.opencontainers.image.ref.name": fmt.Sprintf("v%d", s)}
+		case 2:
+			d.Annotations = map[string]string{}
+		case 3:
+			d.ArtifactType = "application/vnd.example.config+json"
+			d.Annotations = map[string]string{"org.opencontainers.image.ref.name": fmt.Sprintf("v%d", s), "x": "y"}
+		}
+		return d
+	}
 	// a listing may run under a context that ends at its n-th registry / file-system operation
 	armed, fired := -1, false
 	var disarm context.CancelFunc
@@ -191,7 +211,7 @@ func (l c19) Exec(env *core.Env) *core.Result {
 					ann = map[string]string{"a": fmt.Sprint(envN), "b": "x y z", "org.opencontainers.image.created": "2001-02-03T04:05:06Z"}
 				}
 				before := task.FaultsSeen
-				_, pushedManifest, err := repo.PushSignature(ctx, mt, blob, subjects[s], ann)
+				_, pushedManifest, err := repo.PushSignature(ctx, mt, blob, subjectAs(s, envN), ann)
 				faulted := task.FaultsSeen != before
 				trace = append(trace, map[string]any{"op": "push", "subject": s, "n": envN, "size": size, "err": fmt.Sprint(err)})
 				sim.Abstract(fmt.Sprint("push", s, mt, size, err == nil))
@@ -369,7 +389,7 @@ func (l c19) Exec(env *core.Env) *core.Result {
 					lister, armed, disarm = task, int((p.W("cancel")/2+int64(listNo))%7), cancel
 					res.Probe("listing_under_a_context_that_ends_midway")
 				}
-				lerr := repo.ListSignatures(lctx, subjects[s], func(ds []ocispec.Descriptor) error {
+				lerr := repo.ListSignatures(lctx, subjectAs(s, listNo+1), func(ds []ocispec.Descriptor) error {
 					listed = append(listed, ds...)
 					return nil
 				})
